@@ -471,7 +471,7 @@ func (p *CodeBuilder) Slice(slice3 bool, src ...ast.Node) *CodeBuilder { // a[i:
 	if slice3 {
 		exprMax = args[3].Val
 	}
-	// TODO: check type
+	p.checkSliceIndices(args[1:])
 	elem := &internal.Elem{
 		Val: &ast.SliceExpr{
 			X: x.Val, Low: args[1].Val, High: args[2].Val, Max: exprMax, Slice3: slice3,
@@ -527,6 +527,42 @@ func (p *CodeBuilder) Index(nidx int, lhs int, src ...ast.Node) *CodeBuilder {
 	}
 	p.stk.Ret(2, elem)
 	return p
+}
+
+// checkSliceIndices checks the indices of x[i:j:k]: each one given must be of integer type or an
+// untyped constant representable as a non-negative int, and constant indices must not decrease.
+func (p *CodeBuilder) checkSliceIndices(idxs []*internal.Elem) {
+	last := int64(-1)
+	for _, idx := range idxs {
+		if idx.Val == nil || idx.Type == nil { // omitted
+			continue
+		}
+		integral := false
+		if t, ok := idx.Type.Underlying().(*types.Basic); ok {
+			if t.Info()&types.IsInteger != 0 {
+				integral = true
+			} else if t.Info()&types.IsUntyped != 0 && t.Info()&types.IsNumeric != 0 && idx.CVal != nil {
+				integral = constant.ToInt(idx.CVal).Kind() == constant.Int
+			}
+		}
+		if !integral {
+			src, pos, end := p.loadExpr(idx.Src)
+			p.panicCodeErrorf(pos, end, "invalid argument: index %s (type %v) must be integer", src, idx.Type)
+		}
+		if idx.CVal == nil {
+			continue
+		}
+		v, exact := constant.Int64Val(constant.ToInt(idx.CVal))
+		if !exact || v < 0 {
+			src, pos, end := p.loadExpr(idx.Src)
+			p.panicCodeErrorf(pos, end, "invalid argument: index %s (constant %v) must be a non-negative int", src, idx.CVal)
+		}
+		if v < last {
+			_, pos, end := p.loadExpr(idx.Src)
+			p.panicCodeErrorf(pos, end, "invalid slice indices: %d < %d", v, last)
+		}
+		last = v
+	}
 }
 
 // checkIndex checks the index operand of x[idx]: the key of a map index must be assignable to
